@@ -27,15 +27,27 @@ struct Shape {
     balance: bool,
 }
 
-const HOLDERS: [&str; 5] = ["RefDB", "State<RefDB>", "State+cached-prestate", "CacheDB<RefDB>", "CacheDB+insert_account_storage"];
+const HOLDERS: [&str; 6] = ["RefDB", "WrapDatabaseRef<&RefDB>", "State<RefDB>", "State+cached-prestate", "CacheDB<RefDB>", "CacheDB+insert_account_storage"];
+
+/// how the target address is made warm before the creation (EIP-2929): not at all, by an access-list
+/// entry, by a BALANCE of the target executed by the creator first
+#[derive(Clone, Copy, Debug, PartialEq)]
+enum Warm {
+    No,
+    AccessList,
+    BalanceFirst,
+}
 
 fn init_code() -> Vec<u8> {
     initcode_returning(&[0x00])
 }
 
-fn creator_code(kind: Kind, value: u64) -> Vec<u8> {
+fn creator_code(kind: Kind, value: u64, touch_first: Option<Address>) -> Vec<u8> {
     let init = init_code();
     let mut a = Asm::new();
+    if let Some(t) = touch_first {
+        a.push_addr(t).op(0x31).op(0x50);
+    }
     let mut off = 0;
     for chunk in init.chunks(32) {
         let mut w = [0u8; 32];
@@ -71,13 +83,13 @@ struct Setup {
     block: BlockSpec,
 }
 
-fn setup(kind: Kind, shape: &Shape, value: u64, spec: SpecId) -> Setup {
+fn setup(kind: Kind, shape: &Shape, value: u64, spec: SpecId, warm: Warm) -> Setup {
     let mut w = World::default();
     let eth = U256::from(10u64).pow(U256::from(18u8));
     w.accounts.insert(SENDER1, Acct { balance: eth * U256::from(10u64), nonce: 3, ..Default::default() });
     let target = target_address(kind, 3);
     if kind != Kind::CreateTx {
-        w.accounts.insert(CREATOR, Acct { nonce: 1, balance: U256::from(1000u64), code: creator_code(kind, value), ..Default::default() });
+        w.accounts.insert(CREATOR, Acct { nonce: 1, balance: U256::from(1000u64), code: creator_code(kind, value, if warm == Warm::BalanceFirst { Some(target) } else { None }), ..Default::default() });
     }
     let mut t = Acct::default();
     if shape.code {
@@ -101,6 +113,10 @@ fn setup(kind: Kind, shape: &Shape, value: u64, spec: SpecId) -> Setup {
         Kind::CreateTx => TxSpec { to: None, data: init_code(), value: U256::from(value), gas_limit: 500_000, gas_price: U256::from(10u64), nonce: Some(3), ..Default::default() },
         _ => TxSpec { to: Some(CREATOR), gas_limit: 10_000_000, gas_price: U256::from(10u64), nonce: Some(3), ..Default::default() },
     };
+    let mut tx = tx;
+    if warm == Warm::AccessList {
+        tx.access_list = vec![(target, vec![])];
+    }
     Setup { world_full: w, target, tx, block }
 }
 
@@ -126,6 +142,17 @@ fn run_on(holder: &str, s: &Setup, spec: SpecId) -> Result<(TxOutcome, World), S
     }
     match holder {
         "RefDB" => go!(RefDB::new(s.world_full.clone(), spec)),
+        "WrapDatabaseRef<&RefDB>" => {
+            // the read-only wrapper has no commit: execute through it, commit into the wrapped database
+            let mut db = RefDB::new(s.world_full.clone(), spec);
+            let res = crate::wrun::transact_plain(revm::db::WrapDatabaseRef(&db), spec, &s.block, &s.tx);
+            let out = outcome_of(&res.as_ref().map(|r| r.result.clone()).map_err(|e| e.clone()));
+            if let Ok(rs) = res {
+                db.commit(rs.state);
+            }
+            let w = crate::statehist::read_universe(&mut db, &uni, &codes)?;
+            Ok((out, w))
+        }
         "State<RefDB>" => go!(crate::statehist::new_state(RefDB::new(s.world_full.clone(), spec), spec, false, None)),
         "State+cached-prestate" => {
             let mut st = crate::statehist::new_state(RefDB::new(without_target, spec), spec, false, None);
@@ -149,10 +176,11 @@ fn run_on(holder: &str, s: &Setup, spec: SpecId) -> Result<(TxOutcome, World), S
     }
 }
 
-fn check(kind: Kind, shape: &Shape, value: u64, spec: SpecId, holder: &str, rep: &mut Report) {
+fn check(kind: Kind, shape: &Shape, value: u64, spec: SpecId, holder: &str, warm: Warm, rep: &mut Report) {
     rep.eval();
-    let s = setup(kind, shape, value, spec);
-    let case = || json!({"kind": format!("{:?}", kind), "shape": {"code": shape.code, "nonce": shape.nonce, "storage": shape.storage, "balance": shape.balance}, "value": value, "spec": spec_name(spec), "holder": holder});
+    let s = setup(kind, shape, value, spec, warm);
+    let case = || json!({"kind": format!("{:?}", kind), "shape": {"code": shape.code, "nonce": shape.nonce, "storage": shape.storage, "balance": shape.balance}, "value": value, "spec": spec_name(spec), "holder": holder, "warm": format!("{:?}", warm)});
+    rep.cell("target_warmed_before_creation", &format!("{:?}", warm));
     rep.nontrivial(hash64(case().to_string().as_bytes()));
     rep.cell("holders", holder);
     rep.cell("kinds", &format!("{:?}", kind));
@@ -250,7 +278,7 @@ pub fn run(ctx: &Ctx) -> i32 {
             _ => Kind::CreateTx,
         };
         let sh = Shape { code: c["shape"]["code"].as_bool().unwrap(), nonce: c["shape"]["nonce"].as_bool().unwrap(), storage: c["shape"]["storage"].as_bool().unwrap(), balance: c["shape"]["balance"].as_bool().unwrap() };
-        check(kind, &sh, c["value"].as_u64().unwrap(), spec_from_name(c["spec"].as_str().unwrap()).unwrap(), c["holder"].as_str().unwrap(), &mut rep);
+        check(kind, &sh, c["value"].as_u64().unwrap(), spec_from_name(c["spec"].as_str().unwrap()).unwrap(), c["holder"].as_str().unwrap(), match c["warm"].as_str() { Some("AccessList") => Warm::AccessList, Some("BalanceFirst") => Warm::BalanceFirst, _ => Warm::No }, &mut rep);
         println!("replayed: {} violation(s)", rep.violations.len());
     } else {
         let mut jobs = vec![];
@@ -266,7 +294,14 @@ pub fn run(ctx: &Ctx) -> i32 {
                     let sh = Shape { code: bits & 1 != 0, nonce: bits & 2 != 0, storage: bits & 4 != 0, balance: bits & 8 != 0 };
                     for value in [0u64, 5] {
                         for holder in HOLDERS {
-                            jobs.push((kind, sh.clone(), value, spec, holder));
+                            jobs.push((kind, sh.clone(), value, spec, holder, Warm::No));
+                            // the target already warm when the creation starts (EIP-2929 forks)
+                            if spec >= SpecId::BERLIN && value == 0 {
+                                jobs.push((kind, sh.clone(), value, spec, holder, Warm::AccessList));
+                                if kind != Kind::CreateTx {
+                                    jobs.push((kind, sh.clone(), value, spec, holder, Warm::BalanceFirst));
+                                }
+                            }
                         }
                     }
                 }
@@ -275,22 +310,22 @@ pub fn run(ctx: &Ctx) -> i32 {
         let jr = &jobs;
         let nsh = 32;
         rep = par_shards(ctx, nsh, |si, _rng, rep| {
-            for (j, (k, sh, v, sp, h)) in jr.iter().enumerate() {
+            for (j, (k, sh, v, sp, h, wm)) in jr.iter().enumerate() {
                 if j % nsh == si {
-                    check(*k, sh, *v, *sp, h, rep);
+                    check(*k, sh, *v, *sp, h, *wm, rep);
                 }
             }
         });
         rep.exhaustive = Some(true);
         rep.sample(json!({"kind": "Create2", "shape": {"code": false, "nonce": false, "storage": true, "balance": false}, "holder": "CacheDB<RefDB>", "spec": "CANCUN"}));
-        rep.extra.insert("product".into(), json!("kind {CREATE(>=Tangerine), CREATE2(>=Constantinople), create tx} x target shape (code, nonce, storage, balance)^2 x value {0,5} x 5 holders x all SpecIds"));
+        rep.extra.insert("product".into(), json!("kind {CREATE(>=Tangerine), CREATE2(>=Constantinople), create tx} x target shape (code, nonce, storage, balance)^2 x value {0,5} x 6 holders x target warm/cold x all SpecIds"));
         let (a, b) = (rep.counter("cases_expecting_collision"), rep.counter("cases_expecting_success"));
         rep.floor("cases expecting a collision", a, 500);
         rep.floor("cases expecting success", b, 100);
     }
     finish(ctx, rep, Finish {
         level: "exploration",
-        rule: "complete directed product: creation kind x 16 target pre-state shapes x endowment {0,5} x 5 holders of the target's data (RefDB directly; State<RefDB>; State with the target inserted as cached prestate; CacheDB<RefDB>; CacheDB with insert_account_info/insert_account_storage) x every SpecId where the kind exists. Oracle: collision <=> code or nonce or a non-zero slot; on collision the create result is 0 / Halt(CreateCollision), gas passed is consumed, the target and the endowment are untouched, the creator's nonce is bumped. EOF creation kinds are exercised by the C26 workload. Non-trivial/distinct: every cell of the product.".into(),
+        rule: "complete directed product: creation kind x 16 target pre-state shapes x endowment {0,5} x 6 holders of the target's data (RefDB directly; RefDB behind WrapDatabaseRef; State<RefDB>; State with the target inserted as cached prestate; CacheDB<RefDB>; CacheDB with insert_account_info/insert_account_storage) x every SpecId where the kind exists; from Berlin on also with the target address already warm when the creation starts (access-list entry; BALANCE of the target executed first). Oracle: collision <=> code or nonce or a non-zero slot; on collision the create result is 0 / Halt(CreateCollision), gas passed is consumed, the target and the endowment are untouched, the creator's nonce is bumped. EOF creation kinds are exercised by the C26 workload. Non-trivial/distinct: every cell of the product.".into(),
         assumptions: vec!["EIP-7610 is retroactive, so the same oracle applies to every SpecId".into()],
     })
 }
